@@ -184,6 +184,17 @@ def eval_expr(e: ast.expr, env: dict[str, Any], oracle: Oracle | None = None) ->
                 return recv.join(items)
             except TypeError:
                 raise TypeRaised("TypeError")
+    if isinstance(e, ast.Call) and isinstance(e.func, ast.Attribute) and e.func.attr in ("replace", "rpartition", "partition", "removeprefix", "removesuffix", "rsplit", "lstrip", "rstrip") \
+            and 1 <= len(e.args) <= 2 and not e.keywords:
+        try:
+            recv = eval_expr(e.func.value, env, oracle)
+        except AnalysisError:
+            recv = AnalysisError
+        if isinstance(recv, (str, bytes)):
+            try:
+                return getattr(recv, e.func.attr)(*[eval_expr(a, env, oracle) for a in e.args])
+            except (TypeError, ValueError) as ex:
+                raise Raised(ast.Raise(exc=ast.Name(id=type(ex).__name__, ctx=ast.Load()), cause=None))
     if isinstance(e, ast.Call) and isinstance(e.func, ast.Attribute) and e.func.attr in ("split", "strip") and len(e.args) <= 1 and not e.keywords:
         recv = eval_expr(e.func.value, env, oracle)
         if isinstance(recv, (str, bytes)):
